@@ -707,7 +707,7 @@ func runC03R2(c *core.Ctx, pr *pipeRoles) {
 			}, nil)
 			c.Check(tgt == nil, "R2", nm+"/once", p.InstrPos(call), "after the invoke the walk ends (handler invoked at most once per call)", "after invoking a handler the walk continues and can invoke another handler (event delivered twice)", p.PathString(path, tgt)...)
 			// guards: node != nil and handler != nil dominate the invoke
-			c.Check(nonNilGuarded(call, core.Unwrap(node)) && nonNilGuarded(call, call.Call.Value), "R2", nm+"/guards", p.InstrPos(call),
+			c.Check(nonNilGuarded(p, call, core.Unwrap(node)) && nonNilGuarded(p, call, call.Call.Value), "R2", nm+"/guards", p.InstrPos(call),
 				"the invoke is guarded by node != nil and handler != nil", "the invoke is not guarded by nil tests of the node and of its cast field")
 		}
 	}
@@ -723,7 +723,16 @@ func isCastField(pr *pipeRoles, f *types.Var) bool {
 }
 
 // nonNilGuarded: in executes only on the v != nil side of a test of v.
-func nonNilGuarded(in ssa.Instruction, v ssa.Value) bool {
+func nonNilGuarded(p *core.Prog, in ssa.Instruction, v ssa.Value) bool {
+	// v == nil known false here (possibly through the only consistent predecessor of a merged test)
+	for _, cm := range falseAt(p, in) {
+		if cm.Op != token.EQL {
+			continue
+		}
+		if (core.SameValue(cm.X, v) && core.IsNilConst(cm.Y)) || (core.SameValue(cm.Y, v) && core.IsNilConst(cm.X)) {
+			return true
+		}
+	}
 	for _, ifi := range core.Ifs(in.Parent()) {
 		cd := core.CondOf(ifi)
 		if cd.Op != token.EQL && cd.Op != token.NEQ {
